@@ -1,14 +1,15 @@
 (* Props/C10.v — property C10: source layout does not change the parsed program.
    ONLY statements; every proof is `exact <lemma of Proofs/C10.v>`.
    split_direct is the direct splitter of Model/ScriptX.v ("split at LF, drop one CR before it"); that it equals the
-   regex-based split_lines of the shared model (`\r?\n` through the generic matcher) is checked by the correspondence on
-   every run, not proved.  parse_lines = parse_script after line splitting; llines = the logical lines. *)
+   regex-based split_lines of the shared model (`\r?\n` through the generic matcher) is PROVED for every text
+   (C10_split_lines_is_the_direct_splitter, at the end of this file; Proofs/C10split.v) and still checked by the
+   correspondence on every run.  parse_lines = parse_script after line splitting; llines = the logical lines. *)
 From BS Require Import Model.Base Model.Regex Model.Num Model.ExprParser Model.Script Model.ScriptX Model.Lower
   Gen.Unicode Proofs.ScriptFacts Proofs.C06 Proofs.C10 Proofs.C10ws Proofs.C10wsExpr Proofs.C10wsIndent
   Proofs.ExprFuel Proofs.C10wsFull Proofs.RegexShiftG Proofs.C10wsIndent2 Proofs.C10wsReturn
   Proofs.C10tokLex Proofs.C10tokSpaced Proofs.RegexTrail Proofs.C10tokTrail Proofs.RegexTrail2
   Proofs.RegexTrail3 Proofs.C10stmtTrail Proofs.C10parseNoeq Proofs.C10classifyTrail Proofs.C10stmtGaps Proofs.C10stmtGaps2 Proofs.C10stmtGaps3
-  Proofs.C10stmtGaps4 Proofs.C10stmtGaps5 Proofs.C10stmtGaps6 Proofs.C02str Proofs.C10stmtGaps7 Proofs.C10stmtGaps8 Proofs.C10stmtGaps9 Proofs.C10labelKw Proofs.C10stmtGaps10.
+  Proofs.C10stmtGaps4 Proofs.C10stmtGaps5 Proofs.C10stmtGaps6 Proofs.C02str Proofs.C10stmtGaps7 Proofs.C10stmtGaps8 Proofs.C10stmtGaps9 Proofs.C10labelKw Proofs.C10stmtGaps10 Proofs.C10split.
 
 (* ---- LF versus CRLF: both texts have the same lines ---- *)
 Theorem C10_crlf : forall lines, lines <> [] -> Forall no_lf lines -> Forall (fun l => ends_cr l = false) lines ->
@@ -850,3 +851,43 @@ Example C10_ex_ws_indentation :
   (exists k, indent_kind k = true /\ Lower.classify 3 (U "include 'a.bare'") = ROk k /\ Lower.classify 3 (U "  include 'a.bare'") = ROk k) /\
   (exists k, indent_kind k = true /\ Lower.classify 3 (U "fn(x, 'y')") = ROk k /\ Lower.classify 3 (U "  fn(x, 'y')") = ROk k).
 Proof. repeat split; (eexists; split; [|split; vm_compute; reflexivity]; reflexivity). Qed.
+
+(* ---- the regex-based splitter of the shared model IS the direct splitter (Proofs/C10split.v) ----
+   split_lines runs the regenerated `\r?\n` through the backtracking engine's re_split; for EVERY text the result is ROk of
+   the direct splitter's lines: no fuel premise (re_split's own fuel S|text| and the engine's fuel_for always suffice), no
+   side condition.  Hence every line theorem above that is stated about split_direct (C10_crlf, C10_cut_lf, C10_cut_crlf,
+   C10_lines_have_no_lf) is a theorem about the shared model's split_lines / split_chunks. *)
+Theorem C10_split_lines_is_the_direct_splitter : forall text, split_lines text = ROk (split_direct text).
+Proof. exact split_lines_is_split_direct. Qed.
+Print Assumptions C10_split_lines_is_the_direct_splitter.
+
+Theorem C10_split_chunks_is_the_direct_splitter : forall chunks,
+  split_chunks chunks = ROk (concat (map split_direct chunks)).
+Proof. exact split_chunks_is_split_direct. Qed.
+Print Assumptions C10_split_chunks_is_the_direct_splitter.
+
+(* the physical lines of the shared model's front end are LF-free ... *)
+Theorem C10_split_chunks_lines_have_no_lf : forall chunks lines, split_chunks chunks = ROk lines -> Forall no_lf lines.
+Proof. exact split_chunks_no_lf. Qed.
+Print Assumptions C10_split_chunks_lines_have_no_lf.
+
+(* ... and so are the LOGICAL lines (the comment filter drops lines; the continuation join deletes characters — a
+   substitution by the empty string and strip — and inserts single spaces): the hypothesis `no_lf line` of
+   C06_offsets / C06_column_points_at_remainder holds for every line parse_script hands to its statement step *)
+Theorem C10_logical_lines_have_no_lf : forall chunks lines, split_chunks chunks = ROk lines ->
+  forall ix line, In (ix, line) (fst (llines lines 0 ls_init)) -> no_lf line.
+Proof. exact logical_lines_no_lf. Qed.
+Print Assumptions C10_logical_lines_have_no_lf.
+
+(* non-vacuity: CRLF, a lone CR inside a line, LF LF (an empty line), CR CR LF (one CR stays), no trailing newline;
+   computed through the regex engine and through the direct splitter, and the chunked form *)
+Example C10_ex_split_lines_is_direct :
+  split_lines (U "a = 1\00000d\00000ab\00000dc\00000a\00000ad\00000d\00000d\00000ae")
+    = ROk [U "a = 1"; U "b\00000dc"; U ""; U "d\00000d"; U "e"] /\
+  split_direct (U "a = 1\00000d\00000ab\00000dc\00000a\00000ad\00000d\00000d\00000ae")
+    = [U "a = 1"; U "b\00000dc"; U ""; U "d\00000d"; U "e"] /\
+  split_chunks [U "a = 1\00000d\00000ab\00000d"; U "\00000ac\00000a\00000a"; U "d"]
+    = ROk [U "a = 1"; U "b\00000d"; U ""; U "c"; U ""; U ""; U "d"] /\
+  concat (map split_direct [U "a = 1\00000d\00000ab\00000d"; U "\00000ac\00000a\00000a"; U "d"])
+    = [U "a = 1"; U "b\00000d"; U ""; U "c"; U ""; U ""; U "d"].
+Proof. repeat split; vm_compute; reflexivity. Qed.
